@@ -34,10 +34,15 @@ def findActiveSubaps(subaps, mask, threshold, returnFill=False):
                     int(numpy.round(y*ySpacing)): int(numpy.round((y+1)*ySpacing))
                     ]
 
-            if subap.mean() >= threshold:
+            # the mean is taken in double precision whatever the dtype of the
+            # mask: a single-precision mean of a float32 mask is off by up to
+            # 6e-8, which drops (or adds) sub-apertures filled exactly to the
+            # threshold
+            fill = subap.mean(dtype=numpy.float64)
+            if fill >= threshold:
                 subapCoords.append( [x*xSpacing, y*ySpacing])
                 if returnFill:
-                    fills.append(subap.mean())
+                    fills.append(fill)
 
     subapCoords = numpy.array( subapCoords )
 
@@ -67,7 +72,7 @@ def computeFillFactor(mask, subapPos, subapSpacing):
         x2 = int(round(x + subapSpacing))
         y1 = int(round(y))
         y2 = int(round(y + subapSpacing))
-        fills[i] = mask[x1:x2, y1:y2].mean()
+        fills[i] = mask[x1:x2, y1:y2].mean(dtype=numpy.float64)
 
     return fills
 
